@@ -14,10 +14,12 @@
             of code points: the RISC-V lexer (Model/Lex.v) + the assembler [Lex.rv_load_text]; answer as request 60
      op 92: (92 (line ...))  -> the lexer alone on one line: (0) skip | (1) syntax error | (2) accepted ; and whether the line is in the
             lexer's stated domain
+     op 94: (94 dcfg icfg codes) -> RiscvSimulation.load_program on the WHOLE source text (code points): str.splitlines (the validated
+            ToyLex.splitlines) + lexer + assembler [LexText.rv_load_program_text]; answer as request 60
    Every other request goes to [Main.dispatch]. *)
 From ArchSim Require Import Model.Base Model.Mem Model.Cache Model.Fmt Model.RV Model.Single Model.RVSplit
   Model.Pipe Model.Toy Model.Sx Model.Main Model.ToyLex.
-From ArchSim Require Proofs.PipeInv Proofs.SchedDefs Proofs.FlagOffDwb Model.Lex Model.Asm.
+From ArchSim Require Proofs.PipeInv Proofs.SchedDefs Proofs.FlagOffDwb Model.Lex Model.Asm Model.LexText.
 Open Scope Z_scope.
 
 Definition sx_zn (l : list (Z * nat)) : sx :=
@@ -69,6 +71,10 @@ Definition dispatch_all (req : sx) : sx :=
   else if op =? 93 then
     let s0 := init_st [] (dmemsys (dnth req 1) []) (dicache (dnth req 2)) in
     let '(s1, e, img) := Lex.rv_load_text s0 (map dzs (dl (dnth req 3))) in
+    Lx [sx_opt sx_perr e; sx_opt sx_image img; sx_zmap_sorted (ms_lower (ms s1)); sx_st s1]
+  else if op =? 94 then
+    let s0 := init_st [] (dmemsys (dnth req 1) []) (dicache (dnth req 2)) in
+    let '(s1, e, img) := LexText.rv_load_program_text s0 (dzs (dnth req 3)) in
     Lx [sx_opt sx_perr e; sx_opt sx_image img; sx_zmap_sorted (ms_lower (ms s1)); sx_st s1]
   else if op =? 92 then
     let l := dzs (dnth req 1) in
